@@ -229,6 +229,9 @@ class EquationSolver(object):
         # The user can run the system normally to examine convergence errors.
         new_solver.TraceStep = None
         T = self.ParameterInitialSteadyStateMaxTime
+        if T < 1:
+            # Two consecutive periods are compared: there has to be at least one period to solve.
+            raise ValueError('The initial steady state search needs at least one period; got ' + str(T))
         new_solver.Parser.MaxTime = T
         new_solver.MaxIterations = 1000
         new_solver.Parser.Err_Tolerance = self.ParameterInitialSteadyStateErrorToler
